@@ -73,6 +73,65 @@ def run(tier):
         bad = vlib.write_ndjson(os.path.join(sc, "sn_bad.ndjson"), lines)
         r = vlib.tlc_tv("Trace_SeqIssued.tla", "Trace_SeqIssued.cfg", bad, name="c19_tvneg")
         c.add_negative_control("corrupted node trace (an id returned twice) rejected by Trace_SeqIssued", not r["accepted"])
+    # ---- snapshot install into a RUNNING node, then that node hands out ids (leader change after a catch-up by snapshot):
+    # behaviours of SnapInstall.tla over a sequence-biased request alphabet replayed on a real leader and a real follower
+    # node (the machinery of C08); the follower's next-free values after every step must be the specification's - a
+    # follower left below an id the leader already issued would issue it a second time as soon as it leads
+    beh = vlib.tlc_sim("SimSnapInstall.tla", "SIM_SnapInstall_seq.cfg", num=300 if quick else 3000, depth=300, seed=c.seed + 19,
+                       name="c19_snap", timeout=1200)
+
+    def stale_counter_case(b):
+        # the follower has applied a sequence request, the leader issues more of that key, and an install completes later
+        have, more = set(), set()
+        held = []
+        for st in b["steps"]:
+            if st["op"] == "lwrite" and st["req"]["t"].startswith("seq_"):
+                held.append(st["req"]["k"])
+                more |= (have & {st["req"]["k"]})
+            elif st["op"] == "replicate":
+                have |= set(held)
+            elif st["op"] == "chunk" and st.get("done") and more:
+                return True
+        return False
+    def crash_inside_stream(b):
+        # a follower restart inside a multi-chunk stream is C08's known finding (resumed_install_after_follower_restart:
+        # the snapshot file is damaged, everything in it is lost) - not this property's subject
+        open_stream = False
+        for st in b["steps"]:
+            if st["op"] == "chunk":
+                open_stream = not st.get("done")
+            elif st["op"] == "fcrash" and open_stream:
+                return True
+        return False
+    beh = [b for b in beh if not crash_inside_stream(b)]
+    beh.sort(key=lambda b: 0 if stale_counter_case(b) else 1)
+    n_case = sum(1 for b in beh if stale_counter_case(b))
+    beh = beh[: (120 if quick else 1500)]
+    if n_case < 20:
+        raise ToolError("too few behaviours in which a follower holding a counter is caught up by snapshot: %d" % n_case)
+    bf = vlib.write_ndjson(os.path.join(sc, "snap_seq.ndjson"), beh)
+    res = vlib.harness(["replay", "snapinstall", bf, "--jobs", 8], timeout=6000)
+    summ = [r for r in res if r.get("kind") == "summary"][0]
+    if summ.get("tool_errors", 0) > len(beh) // 10:
+        raise ToolError("too many mini-node tool errors: %s" % summ)
+    other = 0
+    for r in res:
+        if r.get("kind") != "result" or r["ok"]:
+            continue
+        txt = json.dumps(r.get("actual")) + json.dumps(r.get("expected"))
+        if json.dumps(r.get("actual")).lstrip('"').startswith("seq:"):
+            c.violation("C19:install:follower_counter_differs_after_snapshot_install",
+                        "snapshot install on two real nodes: the follower's next-free sequence values differ from the leader's "
+                        "prefix state (%s) at step %s - a follower below an issued id hands it out again once it leads" % (json.dumps(r.get("actual"))[:300], r.get("step")),
+                        {"behaviour": beh[r["i"]], "mismatch": r})
+        else:
+            other += 1      # judged by C08
+        del txt
+    c.count(len(beh), [{"snap_seq": i} for i, b in enumerate(beh) if stale_counter_case(b)])
+    c.traces(len(beh))
+    c.cov["install_behaviours"] = len(beh)
+    c.cov["install_behaviours_follower_holds_counter_then_caught_up_by_snapshot"] = sum(1 for b in beh if stale_counter_case(b))
+    c.cov["install_mismatches_judged_by_C08"] = other
     c.assumptions += [
         "single-member Raft group: 'several nodes drawing from one sequence' is checked at model level (2 nodes) and through "
         "the replicated counter semantics (C07); leader change of the history-id stamp is checked at model level and by "
@@ -85,7 +144,10 @@ def run(tier):
              "leader change / replay (UniqueB, MonotoneB); conformance: seeded protocol runs on the real SeqGroup objects "
              "validated action by action (Trace_SeqGroup re-computes every id), and recorded id streams of a real "
              "single-member Raft node (concurrent GetNextId bursts on 2 keys, bursts of publishes crossing the 100-id "
-             "batch, compactions, restarts) validated against 'never twice, never backwards'; distinct = per trace",
+             "batch, compactions, restarts) validated against 'never twice, never backwards'; plus SnapInstall.tla behaviours over a "
+             "sequence-biased alphabet replayed on a real leader and follower node (a follower that holds a counter is caught up by "
+             "a snapshot installed into the RUNNING state machine; its next-free values must equal the specification's); "
+             "distinct = per trace / per install behaviour in which the follower held a counter",
         checker_cmd="tools/vcheck C19 --tier %s" % tier)
 
 
